@@ -207,8 +207,10 @@ func runC19Requests(c *core.Ctx) {
 		}
 		rbv, rhv := valueAt("response-body"), valueAt("response-header")
 		for _, multi := range []bool{false, true} {
+			// one Options value per configuration, as an application holds it: used as is, then given a message
+			// function, then another one; each setting counts from the call that follows it
+			opts := &openapi3filter.Options{MultiError: multi, IncludeResponseStatus: true}
 			for ci, custom := range []bool{false, true, true} {
-				opts := &openapi3filter.Options{MultiError: multi, IncludeResponseStatus: true}
 				if custom {
 					if ci == 2 {
 						opts.WithCustomSchemaErrorFunc(reasonOnlyYielding)
